@@ -78,6 +78,7 @@ let parse toks =
   | ["ddecm"; o; f1; f2; f3] -> ODDec1 (b o, [zi f1; zi f2; zi f3])
   | ["ddecu"; o; k; f] -> ODDecU (b o, zi k, zi f)
   | ["dxvec"; o] -> ODXVec (b o)
+  | ["ddecr"; o; k; f] -> ODDecR (b o, zi k, zi f)
   | _ -> failwith ("bad op: " ^ String.concat " " toks)
 
 let xparse toks =
@@ -89,6 +90,18 @@ let xparse toks =
   | ["cmvec"; o] -> XMVec (b o)
   | ["cuse"; o] -> XUse (b o)
   | _ -> XB (parse toks)
+
+let fp cs ck nd = { f_cs = zi cs; f_ck = zi ck; f_nd = zi nd }
+let yparse toks =
+  match toks with
+  | ["cinit"; o; l] -> YInit (b o, zi l)
+  | ["cinitsrc"; o; l; p] -> YInitSrc (b o, zi l, zi p)
+  | ["cinitdict"; o; k; l] -> YInitDict (b o, zi k, zi l)
+  | ["cinitcdict"; o; k] -> YInitCDict (b o, zi k)
+  | ["cinitcdictadv"; o; k; cs; ck; nd; p] -> YInitCDictAdv (b o, zi k, fp cs ck nd, zi p)
+  | ["cinitadv"; o; k; wl; cl; hl; sl; mm; tl; st; cs; ck; nd; p] -> YInitAdv (b o, zi k, mk wl cl hl sl mm tl st, fp cs ck nd, zi p)
+  | ["cresetcs"; o; p] -> YResetCS (b o, zi p)
+  | _ -> YX (xparse toks)
 
 let () =
   let w = ref xworld_new in
@@ -124,7 +137,7 @@ let () =
        | ["get"; level; src; dict; mode] -> print_cpar (get_cparams (zi level) (zi src) (zi dict) (zi mode))
        | ["getp"; level; src; dict] -> print_cpar (get_cparams_public (zi level) (zi src) (zi dict))
        | _ ->
-           let (w', (r, vals)) = xstep !w (xparse toks) in
+           let (w', (r, vals)) = ystep !w (yparse toks) in
            w := w';
            Buffer.add_string buf (cls r);
            List.iter (fun v -> Buffer.add_char buf ' '; Buffer.add_string buf (if v = unknown_cell then "?" else string_of_z v)) vals;
